@@ -51,7 +51,8 @@ type result struct {
 
 func tokDump(toks []models.TokenWithSpan, comments []models.Comment, err error) string {
 	if err != nil {
-		return "ERR " + err.Error()
+		// the comments a failed call leaves on the instance are a function of that call's input too
+		return "ERR " + err.Error() + " COMMENTS " + astdump.Dump(comments)
 	}
 	return astdump.Dump(toks) + " COMMENTS " + astdump.Dump(comments)
 }
@@ -66,6 +67,25 @@ func tokenizeOn(tkz *tokenizer.Tokenizer, sql string, viaCtx bool) ([]models.Tok
 	}
 	cs := append([]models.Comment(nil), tkz.Comments...)
 	return toks, tokDump(toks, cs, err) + " DIALECT " + string(tkz.Dialect())
+}
+
+var oversized = make([]byte, tokenizer.MaxInputSize+1)
+
+func refusedOn(tkz *tokenizer.Tokenizer, how, sql string) string {
+	var toks []models.TokenWithSpan
+	var err error
+	switch how {
+	case "refused_cancelled":
+		toks, err = tkz.TokenizeContext(cctx.New(0, context.Canceled), []byte(sql))
+	default:
+		if len(sql)%2 == 0 {
+			toks, err = tkz.Tokenize(oversized)
+		} else {
+			toks, err = tkz.TokenizeContext(context.Background(), oversized)
+		}
+	}
+	cs := append([]models.Comment(nil), tkz.Comments...)
+	return tokDump(toks, cs, err) + " DIALECT " + string(tkz.Dialect())
 }
 
 func parseOn(p *parser.Parser, toks []models.TokenWithSpan, entry string, k int) string {
@@ -214,6 +234,14 @@ func run(h History) error {
 			tkz = q
 			cfg.tkzDialSet = false
 		case "probe":
+			if op.Arg == "refused_cancelled" || op.Arg == "refused_oversized" {
+				// a call the tokenizer refuses before reading anything: what it leaves on the instance
+				// (comments, dialect) must be what it leaves on a fresh one
+				g, w := refusedOn(tkz, op.Arg, op.SQL), refusedOn(freshTokenizer(cfg), op.Arg, op.SQL)
+				if g != w {
+					return fmt.Errorf("step %d: a refused tokenization (%s) on the used tokenizer leaves something else behind than on a fresh one: %s", i, op.Arg, astdump.Diff(g, w))
+				}
+			}
 			// tokenizer probe
 			viaCtx := op.K%2 == 1 // both tokenizing entry points are probed
 			toks, got := tokenizeOn(tkz, op.SQL, viaCtx)
@@ -316,11 +344,16 @@ func genProbe(rt *rapid.T) Op {
 	}
 	// leading blanks and tabs: column bookkeeping left over from the previous input would show here
 	sql = rapid.SampledFrom([]string{"", "", "\t", "  ", "\t\t ", "          ", " \t", "\n\t"}).Draw(rt, "probelead") + sql
-	return Op{Kind: "probe", SQL: sql, Entry: entry, K: rapid.IntRange(0, 12).Draw(rt, "probek")}
+	arg := ""
+	if rapid.IntRange(0, 5).Draw(rt, "refused") == 0 {
+		arg = rapid.SampledFrom([]string{"refused_cancelled", "refused_oversized"}).Draw(rt, "refusedhow")
+		hx.Class("reuse_history", "probe_"+arg)
+	}
+	return Op{Kind: "probe", SQL: sql, Entry: entry, K: rapid.IntRange(0, 12).Draw(rt, "probek"), Arg: arg}
 }
 
 func TestReuseHistory(t *testing.T) {
-	hx.Rule("reuse_history", "histories (<= 12 steps) on one Tokenizer and one Parser: tokenize valid/invalid/comment-heavy input, tokenize cancelled at poll k, parse through plain/context/positions/recovery entry points and cancelled at poll k (valid, invalid, failing deep inside nesting, over the depth limit), apply strict mode / dialect, Reset, Release, Put->Get through the pools (goroutine pinned, GC off); after the history a probe (incl. an input exactly as deep as a fresh parser accepts, a dialect-sensitive LIMIT, stray semicolons) must give identical tokens, comments, dialect, tree and error text to fresh instances configured as the current holder did; non-trivial = history has a failing or cancelled call, or an option change followed by Reset/Put-Get; distinct = op kinds + input classes")
+	hx.Rule("reuse_history", "histories (<= 12 steps) on one Tokenizer and one Parser: tokenize valid/invalid/comment-heavy input, tokenize cancelled at poll k, parse through plain/context/positions/recovery entry points and cancelled at poll k (valid, invalid, failing deep inside nesting, over the depth limit), apply strict mode / dialect, Reset, Release, Put->Get through the pools (goroutine pinned, GC off); after the history a probe (incl. a tokenization refused outright - context already done, input over the size limit - , an input exactly as deep as a fresh parser accepts, a dialect-sensitive LIMIT, stray semicolons) must give identical tokens, comments, dialect, tree and error text to fresh instances configured as the current holder did; non-trivial = history has a failing or cancelled call, or an option change followed by Reset/Put-Get; distinct = op kinds + input classes")
 	histCheck.Rapid(t, hx.N(20000, 200000), genReuseHistory)
 }
 
